@@ -619,3 +619,50 @@ def rf184(run):
                           line=calls[0]['l'])
     run.control(rule, 'diagnostics of MIR_finish_func found', n >= 15)
     return n
+
+
+# ---------------------------------------------------------------------------------------------
+# RF195: the property operand of prset / prbeq / prbne is an immediate, checked at creation
+# ---------------------------------------------------------------------------------------------
+
+def rf195(run):
+    from lib import printexec as PE
+    rule = 'RF195'
+    run.rule(rule, 'MIR_new_insn_arr, the chain of opcode-specific checks executed abstractly: for `prset` (operand 2) and `prbeq` / `prbne` '
+                   '(operand 3) an operand that is a register, memory, reference or string raises the error function, an integer immediate '
+                   'does not.  MIR_finish_func compares value *modes* only (an integer register has the mode of an integer immediate), and '
+                   'the generator reads `u.i` of this operand')
+    tu = run.tu('mir')
+    f = tu.func('MIR_new_insn_arr')
+    run.functions_analysed.add(('mir', f.name))
+    chains = [x for x in f.walk() if x['k'] == 'IfStmt' and (f.parent_of(x) is None or not (f.parent_of(x)['k'] == 'IfStmt' and f.parent_of(x)['c'][2] is x))
+              and any('MIR_VA_ARG' in F.src(y['c'][0]) for y in F.walk(x) if y['k'] == 'IfStmt')]
+    if not chains:
+        raise F.AnalysisBroken('MIR_new_insn_arr: the chain of opcode-specific checks was not found')
+    chain = max(chains, key=lambda x: sum(1 for _ in F.walk(x)))
+    codes = dict(tu.enum('MIR_insn_code_t'))
+    modes = dict(tu.enum('MIR_op_mode_t'))
+    n = 0
+    for nm, k in (('MIR_PRSET', 1), ('MIR_PRBEQ', 2), ('MIR_PRBNE', 2)):
+        for mn, want_err in (('MIR_OP_REG', True), ('MIR_OP_MEM', True), ('MIR_OP_REF', True), ('MIR_OP_STR', True), ('MIR_OP_INT', False)):
+            ex = PE.PrintExec(tu, {}, {'MIR_call_code_p': lambda a, e, x: 0}, {})
+            env = {'code': codes[nm], 'nops': k + 1, 'expected_nops': k + 1}
+            for j in range(k + 1):
+                env['ops[%d].mode' % j] = modes['MIR_OP_REG']
+            env['ops[0].mode'] = modes['MIR_OP_LABEL'] if nm != 'MIR_PRSET' else modes['MIR_OP_REG']
+            env['ops[%d].mode' % k] = modes[mn]
+            try:
+                ex.run(chain, env)
+            except F.AnalysisBroken as e_:
+                raise F.AnalysisBroken('MIR_new_insn_arr: checks not evaluable for %s with a %s property: %s' % (nm, mn, e_))
+            got = bool(ex.errors)
+            ok = got == want_err
+            n += 1
+            run.ob(rule, (nm, mn), ok, {'opcode': nm, 'mode of the property operand': mn, 'error raised': got})
+            if not ok:
+                run.violation(rule, f, 'property operand of %s' % nm[4:].lower(), 'MIR_new_insn_arr %s a %s with a %s as property operand: %s' %
+                              ('accepts' if want_err else 'rejects', nm[4:].lower(), mn[7:].lower(),
+                               'nothing else looks at the operand kind (MIR_finish_func compares modes of values), and the generator takes `u.i` of '
+                               'a register or memory operand for the property' if want_err else 'an integer immediate is the documented form'),
+                              line=chain['l'])
+    return n
